@@ -280,7 +280,17 @@ def verify_function(cid, timeout_ms=10000, node_override=None, canary=True):
     res.status = 'unsupported'
     res.reason = str(e)
   except Exception as e:   # pylint: disable=broad-except
-    res.status = 'error'
-    res.reason = f'{type(e).__name__}: {e}\n' + traceback.format_exc()
+    tb = traceback.extract_tb(e.__traceback__)
+    in_contract = bool(tb) and '/contracts/' in tb[-1].filename
+    if in_contract and isinstance(e, (AttributeError, KeyError, IndexError, TypeError)):
+      # a clause of the sidecar contract could not even be evaluated on this code (a local it
+      # names does not exist any more, a loop iterates over something of another shape, ...):
+      # the contract does not fit the function as it is now -> not proved, not a checker crash
+      res.status = 'unsupported'
+      res.reason = (f'the contract could not be evaluated on the current code '
+                    f'({type(e).__name__}: {e} at {tb[-1].filename.split("/")[-1]}:{tb[-1].lineno})')
+    else:
+      res.status = 'error'
+      res.reason = f'{type(e).__name__}: {e}\n' + traceback.format_exc()
   res.time = time.time() - t0
   return res
